@@ -398,7 +398,11 @@ def _len(run, a, k):
 @builtin("float")
 def _float(run, a, k):
     v = a[0]
-    if isinstance(v, (SMaybeNaN, SInf)):
+    if isinstance(v, SMaybeNaN):
+        if run.branch(to_z3(v.isnan) if not isinstance(v.isnan, bool) else v.isnan):
+            return SMaybeNaN(True, Fraction(0))
+        return to_real(v.val) if is_z3(v.val) else v.val
+    if isinstance(v, SInf):
         return v
     if isinstance(v, SArr) and len(v) == 1:
         v = v.elems[0]
